@@ -12,6 +12,7 @@
   here (see DESIGN.md §5 C02): `C02_core_semantics_full` records it.
 -/
 import RsjProofs.EvalMono
+import RsjProofs.Bind
 namespace Rsj.Eval
 open Rsj.Core Lean.Order
 
@@ -97,6 +98,41 @@ theorem C02_desugar_paren (cfg : Cfg) (n : Nat) (e : Expr) (env : EId) (tail : B
     run cfg (n + 2) (.eval (.paren e) env tail d) = run cfg (n + 1) (.eval e env false d) := by
   rfl
 
+/-! ### (iii) Parameter binding (`check_call_args_generic`), used by the evaluator model's call case -/
+
+open Rsj.Bind in
+/-- **C02 bind_correct.** With distinct parameter names, binding succeeds exactly when there
+    is no excess positional argument, the named arguments are distinct names of parameters not
+    already bound positionally, and every remaining parameter is named or has a default; and then
+    parameter `i` takes the `i`-th positional argument, else the named argument of its name, else
+    its default. -/
+theorem C02_bind_correct (params : List (String × Bool)) (npos : Nat) (named : List String)
+    (hnd : (params.map Prod.fst).Nodup) (slots : List Slot) :
+    bindPlan params npos named = .ok slots ↔
+      npos ≤ params.length ∧ named.Nodup ∧
+      (∀ n ∈ named, ∃ i, npos ≤ i ∧ i < params.length ∧ (params[i]?).map Prod.fst = some n) ∧
+      (∀ i, npos ≤ i → i < params.length →
+        (∃ j : Nat, named[j]? = (params[i]?).map Prod.fst) ∨ (params[i]?).map Prod.snd = some true) ∧
+      slots = expectedSlots params npos named :=
+  bindPlan_ok_iff params npos named hnd slots
+
+open Rsj.Bind in
+/-- Which error is reported: too many arguments first; else the first faulty named argument in
+    call order (unknown or repeated); else the first parameter left unbound. -/
+theorem C02_bind_error_priority (params : List (String × Bool)) (npos : Nat) (named : List String)
+    (hnd : (params.map Prod.fst).Nodup) :
+    (npos > params.length ∧
+      bindPlan params npos named = .error (.tooManyCallArgs params.length)) ∨
+    (npos ≤ params.length ∧ ¬ GoodNamed params npos named ∧
+      ∃ pre n post, named = pre ++ n :: post ∧ GoodNamed params npos pre ∧
+        ¬ GoodNamed params npos (pre ++ [n]) ∧
+        (bindPlan params npos named = .error (.unknownCallParam n) ∨
+         bindPlan params npos named = .error (.repeatedCallParam n))) ∨
+    (npos ≤ params.length ∧ GoodNamed params npos named ∧
+      ((∃ n, bindPlan params npos named = .error (.callParamNotBound n)) ∨
+        bindPlan params npos named = .ok (expectedSlots params npos named))) :=
+  bindPlan_priority params npos named hnd
+
 /-- The full property, recorded as a statement: for every closed core program,
     the implementation's manifestation equals the one the specification assigns.
     It is not provable inside this development (the specification is not
@@ -129,3 +165,7 @@ open Rsj.Eval in
 #print axioms C02_desugar_if_without_else
 open Rsj.Eval in
 #print axioms C02_desugar_paren
+open Rsj.Eval in
+#print axioms C02_bind_correct
+open Rsj.Eval in
+#print axioms C02_bind_error_priority
